@@ -5,7 +5,7 @@
    in-memory index) dropped, then ContinuityStore::new;  `run_ops fixed … base more` = ANY further operations.
    `env_runb` = the environment's part (fresh UUIDs: a thread id chosen for creation is not in the log, a
    session whose counter is not in memory is new).  `fixed` = /repo with the two repairs (bd2ee56, 0b0d2b0). *)
-From RipV Require Import Base.Prelude Model.Crash Proofs.CrashProofs Proofs.CrashCacheProofs Gen.CrashEffects Proofs.CrashGenProofs.
+From RipV Require Import Base.Prelude Model.Crash Proofs.CrashProofs Proofs.CrashCacheProofs Proofs.CrashIndexProofs Gen.CrashEffects Proofs.CrashGenProofs.
 
 (* whole store replays, every stream 0,1,2,.., whole lines only *)
 Theorem c05_recover_valid : forall (hist : list op) (k : nat) (base : N) (more : list op),
@@ -140,6 +140,84 @@ Example c05_caches_after_crash_nonvacuous :
   /\ try_replay (run_ops fixed (crash fixed 43 stale_hist) 2 []) 0 = Some [mkf 0 0 0 300 None].
 Proof. exact stale_is_prefix. Qed.
 Print Assumptions c05_caches_after_crash_nonvacuous.
+
+(* ---- the thread index (continuities/index.json) across a crash.  save_index = write the temp file, rename it over
+   index.json.  For EVERY code version, EVERY history and EVERY number k of executed instructions (no hypothesis): with
+   n = the number of operations complete after k instructions, the index on disk is the one a clean run of the first n
+   operations leaves (OLD) or the one the first n+1 leave (NEW) — never none, never something in between *)
+Theorem c05_rename_atomic_views : forall (v : ver) (hist : list op) (k : nat),
+  idx (crash v k hist) = idx (run_ops v init 0 (firstn (done_ops v k init 0 hist) hist))
+  \/ idx (crash v k hist) = idx (run_ops v init 0 (firstn (S (done_ops v k init 0 hist)) hist)).
+Proof. exact crash_atomic_views. Qed.
+Print Assumptions c05_rename_atomic_views.
+
+(* what ANY completed (= acknowledged) operation left in index.json is still there after a crash at ANY later
+   instruction, restart and ANY further operations (`idx_ext a b`: if a exists then b exists, lists every thread a
+   lists, and has a's default thread if a has one) *)
+Theorem c05_index_never_loses : forall (v : ver) (hist : list op) (k j : nat) (base : N) (more : list op),
+  (j <= done_ops v k init 0 hist)%nat ->
+  idx_ext (idx (run_ops v init 0 (firstn j hist))) (idx (run_ops v (crash v k hist) base more)).
+Proof. exact index_never_loses. Qed.
+Print Assumptions c05_index_never_loses.
+
+(* the default thread a completed operation had on disk is what the restarted store answers ensure_default with
+   (from its index: no log scan, no new thread) *)
+Theorem c05_default_survives : forall (v : ver) (hist : list op) (k j : nat) (x : idxv) (d c len : N),
+  (j <= done_ops v k init 0 hist)%nat ->
+  idx (run_ops v init 0 (firstn j hist)) = Some x -> ix_default x = Some d ->
+  ix_default (midx (crash v k hist)) = Some d /\ compile v (crash v k hist) (nlen hist) (OEnsure c len) = [IOk].
+Proof. exact default_survives. Qed.
+Print Assumptions c05_default_survives.
+
+(* the index is saved BEFORE the call returns: a branch / handoff that returns Ok has its child listed on disk, an
+   ensure_default that returns Ok has the default it answers on disk (`K` = memory index equals disk index, true of
+   `init`, of every restarted store and after every operation) *)
+Theorem c05_created_thread_listed : forall (v : ver) (s : st) (i : N) (o : op) (p c : N), K s ->
+  (exists l0 l1, o = OBranch p c l0 l1) \/ (exists a l0 l1, o = OHandoff p c a l0 l1) ->
+  has_ok (compile v s i o) = true ->
+  exists x, idx (run_instrs s (compile v s i o)) = Some x /\ In c (ix_known x).
+Proof. exact created_listed. Qed.
+Print Assumptions c05_created_thread_listed.
+
+Theorem c05_ensured_default_on_disk : forall (v : ver) (s : st) (i c len : N), K s ->
+  has_ok (compile v s i (OEnsure c len)) = true ->
+  exists x d, idx (run_instrs s (compile v s i (OEnsure c len))) = Some x /\ ix_default x = Some d
+              /\ ix_default (midx (run_instrs s (compile v s i (OEnsure c len)))) = Some d.
+Proof. exact ensured_default_on_disk. Qed.
+Print Assumptions c05_ensured_default_on_disk.
+
+Theorem c05_index_boundary_invariant : forall (v : ver) (ops : list op) (s : st) (i : N), K s ->
+  K (run_ops v s i ops) /\ idx_ext (idx s) (idx (run_ops v s i ops)).
+Proof. exact run_ops_boundary. Qed.
+Print Assumptions c05_index_boundary_invariant.
+
+(* the hypotheses are met: crashes inside the branch of [ensure_default; message; branch], before and after the rename *)
+Example c05_index_views_nonvacuous :
+  (2 <= done_ops fixed 70 init 0 ul_hist)%nat
+  /\ idx (run_ops fixed init 0 (firstn 2 ul_hist)) = Some {| ix_default := Some 0; ix_known := [0] |}
+  /\ idx (crash fixed 70 ul_hist) = Some {| ix_default := Some 0; ix_known := [0] |}
+  /\ idx (crash fixed 200 ul_hist) = Some {| ix_default := Some 0; ix_known := [0; 1] |}.
+Proof. exact ul_example. Qed.
+Print Assumptions c05_index_views_nonvacuous.
+
+(* REFUTED for "unlink the destination, then rename" (`unlink_first`: fs::remove_file(index.json) inserted before
+   fs::rename(tmp, index.json), the pattern local_authority.rs uses; seeded change C05-4): the process dies between the
+   two effects of the branch's index save.  The two completed operations had thread 0 listed and default and their
+   frames acknowledged; the log is intact and holds the half-created child (thread 1); but there is NO index.json, the
+   restarted store lists nothing, and ensure_default adopts the child as the workspace's default thread.  With rip's
+   save_index the same boundary leaves the old index (and the new one in the temp file) *)
+Theorem c05_unlink_then_rename_refuted :
+  idx (run_ops fixed init 0 (firstn 2 ul_hist)) = Some {| ix_default := Some 0; ix_known := [0] |}
+  /\ In 0 (acks (crashx unlink_first fixed ul_k ul_hist)) /\ In 4 (acks (crashx unlink_first fixed ul_k ul_hist))
+  /\ option_map (map (fun f => (f_sid f, f_seq f))) (replay_validated (crashx unlink_first fixed ul_k ul_hist))
+     = Some [(0, 0); (0, 1); (2, 0)]
+  /\ idx (crashx unlink_first fixed ul_k ul_hist) = None
+  /\ ix_known (midx (crashx unlink_first fixed ul_k ul_hist)) = []
+  /\ compile fixed (crashx unlink_first fixed ul_k ul_hist) 3 (OEnsure 9 300) = [IIdxMem (Some 1) None] ++ save_index ++ [IOk]
+  /\ idx (crash fixed ul_k_fixed ul_hist) = Some {| ix_default := Some 0; ix_known := [0] |}
+  /\ idx_tmp (crash fixed ul_k_fixed ul_hist) = Some {| ix_default := Some 0; ix_known := [0; 1] |}.
+Proof. exact ul_witness. Qed.
+Print Assumptions c05_unlink_then_rename_refuted.
 
 (* T1 (Gen/CrashEffects.v is regenerated from /repo on every run): the order of file-system effects, crash points and
    counter updates read from EventLog::append, append_best_effort, rebuild_best_effort, the 11 locked appends,
